@@ -359,6 +359,11 @@ func (c *clientHello) parseExtensions() error {
 			//                   Empty;
 			//           };
 			//        } ECHClientHello;
+			// RFC 8446 section 4.2: there must not be more than one
+			// extension of the same type.
+			if c.echExt != nil {
+				return fmt.Errorf("%w: duplicate encrypted_client_hello extension", ErrIllegalParameter)
+			}
 			c.echExt = &echExt{}
 
 			if !data.ReadUint8(&c.echExt.Type) { // type
